@@ -59,4 +59,58 @@ def route (hasDomain : Bool) (mx : Ans (Nat × Nat)) (a : Ans Nat) (attempts : N
         | some h => .deliverTo h
         | none => .permanent
 
+/-! ## the expiring cache of `MxRecord` -/
+
+/-- What the resolver would answer right now: MX records `(priority, host, ttl)`, A records by their `ttl`. -/
+structure Query where
+  mx : Ans (Nat × Nat × Nat)
+  a : Ans Nat
+
+structure Cache where
+  records : Option (List (Nat × Nat)) := none     -- `_records`
+  expiration : Nat := 0                            -- `_expiration`; 0 = nothing worth keeping
+deriving Repr, DecidableEq
+
+/-- `expired`: `not self._expiration or time.time() >= self._expiration` -/
+def expired (c : Cache) (now : Nat) : Bool := c.expiration == 0 || now ≥ c.expiration
+
+def maxExp (now : Nat) (ttls : List Nat) : Nat := ttls.foldl (fun e t => max e (now + t)) 0
+
+/-- `_resolve` with the expiration it computes: `none` = a DNSError is raised; `some (none, 0)` = neither MX nor A. -/
+def resolveTtl (now : Nat) (q : Query) : Option (Option (List (Nat × Nat)) × Nat) :=
+  match q.mx with
+  | .records l => some (some (sortMx (l.map fun r => (r.1, r.2.1))), maxExp now (l.map fun r => r.2.2))
+  | .error => none
+  | .noData | .notFound =>
+    match q.a with
+    | .records l => some (some (l.map fun _ => (0, 0)), maxExp now l)
+    | .noData | .notFound => some (none, 0)
+    | .error => none
+
+/-- `MxRecord.get()` at time `now`: the new cache, whether the resolver was asked, and what `get` gives
+    (`nothing` = the ValueError "No usable DNS records found"). -/
+def cacheGet (c : Cache) (now : Nat) (q : Query) : Cache × Bool × Resolved :=
+  if expired c now then
+    match resolveTtl now q with
+    | none => (c, true, .dnsError)                       -- the exception leaves the object as it was
+    | some (recs, exp) =>
+      let c' : Cache := ⟨recs, exp⟩
+      (c', true, match recs with
+                 | some (r :: rs) => .hosts (r :: rs)
+                 | _ => .nothing)
+  else
+    (c, false, match c.records with
+               | some (r :: rs) => .hosts (r :: rs)
+               | _ => .nothing)
+
+/-- `MxSmtpRelay.attempt` for a domain whose `MxRecord` is `c`. -/
+def routeCached (c : Cache) (now : Nat) (q : Query) (attempts : Nat) : Cache × Bool × Outcome :=
+  let (c', asked, r) := cacheGet c now q
+  (c', asked, match r with
+    | .dnsError => .transient
+    | .nothing => .permanent
+    | .hosts l => match chooseMx l attempts with
+      | some h => .deliverTo h
+      | none => .permanent)
+
 end Slimta.Mx
